@@ -117,6 +117,29 @@ def gen(ctx, n):
         for b_ in range(3):
             for c_ in range(3):
                 ctx.add('sig.batch', lst(['00'] * a_), lst([vals.rb(rng, 64).hex() for _ in range(b_)]), lst([kb] * c_), cls='batch:random')
+    # large inputs that take the Pippenger path (>= 190 terms): a missing / undecodable point must give None / Err there too
+    big = 200
+    sc1 = 'c' + to32(1).hex()
+    for pos in (0, big // 2, big - 1):
+        pl = ['B'] * big
+        pl[pos] = '~'
+        ctx.add('ed.omsm', lst([sc1] * big), lst(pl), cls='batch:random')
+        ctx.add('rs.omsm', lst([sc1] * big), lst(pl), cls='batch:random')
+    seed0 = vals.rb(rng, 32)
+    pk0 = ref.ed_public(seed0)
+    msgs, sigs = [], []
+    for i in range(100):
+        m_ = bytes([i])
+        msgs.append(m_)
+        sigs.append(ref.ed_sign(seed0, m_))
+    while True:
+        badR = vals.rb(rng, 32)
+        if ref.ed_decompress(badR) is None:
+            break
+    for pos in (0, 57, 99):
+        ss = [x.hex() for x in sigs]
+        ss[pos] = (badR + sigs[pos][32:]).hex()
+        ctx.add('sig.batch', lst([hx(x) for x in msgs]), lst(ss), lst([pk0.hex()] * 100), cls='batch:random')
     # contexts of every length through with_context / sign_prehashed / verify_prehashed (<= 255 for verification:
     # longer verification contexts are outside the documented domain)
     seed = vals.rb(rng, 32)
